@@ -218,6 +218,9 @@ pub fn evaluate(dt: dust_dds::xtypes::dynamic_type::DynamicType<'static>, t: &Ty
 pub fn family(key: &str) -> String {
     if key.starts_with("dec_fail|") {
         "dec_fail".into()
+    } else if key.starts_with("enc_diff|") {
+        // which enclosing header differs first depends on the embedding, not on the root cause
+        "enc_diff".into()
     } else {
         key.to_string()
     }
